@@ -18,6 +18,8 @@ def bind(fn: ast.FunctionDef) -> Dict[str, Optional[str]]:
     calls = [n for n in walk_local(fn) if isinstance(n, ast.Call) and dotted(n.func) in ("re.search", "re.match")]
     if len(calls) == 1 and len(calls[0].args) >= 2 and isinstance(calls[0].args[1], ast.Name):
         r["text"] = calls[0].args[1].id
+        if isinstance(calls[0].args[0], ast.Name):
+            r["regex"] = calls[0].args[0].id  # the (anchored) pattern actually searched: the parameter itself or a local derived from it
     for s in stmts_local(fn.body):
         if isinstance(s, ast.Assign) and isinstance(s.targets[0], ast.Name) and isinstance(s.value, ast.Subscript) and norm(s.value.value) == r["words"] \
                 and isinstance(s.value.slice, ast.Name):
